@@ -32,9 +32,9 @@ func VerifC09_CloseReturns() {
 
 	// request state
 	const (
-		neverStarted = iota // tracked (UseStore) but no graphsync request yet
-		closedBefore        // request already cancelled by an earlier CloseChannel
-		remoteCancelled     // the requester cancelled its request
+		neverStarted    = iota // tracked (UseStore) but no graphsync request yet
+		closedBefore           // request already cancelled by an earlier CloseChannel
+		remoteCancelled        // the requester cancelled its request
 		live
 	)
 	state := zz.Choice("state", 4)
